@@ -7,7 +7,8 @@ Statement of the property, clause by clause:
   (a) parsing the dumped text yields a value equal to the original, for any indentation
         C24_string_roundtrip, C24_number_roundtrip (the two leaf lemmas), C24_roundtrip_load (any
         whitespace as indentation, any delimiter after the value), C24_roundtrip (json::dump(indent)
-        followed by json::parse), C24_fuel_suffices (the model's recursion budget is never the reason)
+        followed by json::parse), C24_fuel_suffices (the model's recursion budget is never the reason),
+        C24_reparse_same_text (the value read back prints the same text and has the same hash)
   (b) the full quantifier of the property also contains NUL bytes, NaN/Inf and empty keys, for which
       the statement is false of the code: C24_roundtrip_full, C24_roundtrip_full_fails,
       C24_roundtrip_partial (= (a), the strongest restriction that is proved)
@@ -19,6 +20,7 @@ correspondence run only (DESIGN section 3: floating point is never reasoned abou
 -/
 import OccaProofs.Lemmas.JsonGenTie
 import OccaProofs.Lemmas.JsonRoundtrip
+import OccaProofs.Lemmas.JsonReparse
 import OccaModel.Hash
 
 namespace Occa.Json.C24
@@ -74,6 +76,15 @@ theorem C24_roundtrip (v : Json) (hv : Covered v) (hn : NulFree v) (indent : Int
 
 example : Covered (.obj [([97, 34, 98], .arr [.num ⟨.u32, 4294967295, []⟩, .str [92, 0], .null]), ([98], .num ⟨.bool, 1, []⟩)]) :=
   rt_of_coveredB _ (by decide)
+
+/-- the value read back prints the same text again at every indentation, hence has the same hash:
+    "equal values produce equal text and equal hashes" across a round trip -/
+theorem C24_reparse_same_text (v : Json) (hv : Covered v) (hn : NulFree v) (indent : Int) :
+    ∃ v', parse (dumpI indent v) = .ok v' ∧ jsonEq v v' = true
+      ∧ (∀ i : Int, dumpI i v' = dumpI i v) ∧ hashText v' = hashText v := by
+  unfold dumpI
+  obtain ⟨v', hp, he, hs⟩ := parse_dump_same v hv hn _ (allWs_replicate _)
+  exact ⟨v', hp, he, fun i => hs _ _, hs _ _⟩
 
 /-- clause (a) at the strength of the property text: every value built through the API (`wf`: members
     ordered like std::map) without `none_` nodes — strings and keys containing any bytes, numbers of
